@@ -641,15 +641,14 @@ func (x *xexec) checkSignature(msg, sig []byte, idx uint32) {
 		// the WOTS part is real code even with stub leaves: for a sample of
 		// signatures recompute the leaf it commits to (as verification would)
 		// and compare it with the real leaf of that index
-		if idx < 2 || idx%61 == 0 || idx >= x.leaves-1 || x.wotsChecks < 4 {
+		if xmss.VerifWOTSCheck == nil {
+			x.res.Probes.Add("wots-part-hook-unavailable", 1)
+		} else if idx < 2 || idx%61 == 0 || idx >= x.leaves-1 || x.wotsChecks < 4 {
 			x.wotsChecks++
-			var got, want []byte
-			oc := guard(func() {
-				got = xmss.VerifLeafFromSignature(x.hashFn, msg, sig, x.root, x.pubSeed)
-				want = x.live.VerifRealLeaf(idx)
-			})
+			good := false
+			oc := guard(func() { good = xmss.VerifWOTSCheck(x.live, msg, sig, idx) })
 			x.res.Probes.Add("wots-part-checked-in-stub-mode", 1)
-			if oc.panicked || got == nil || !bytes.Equal(got, want) {
+			if oc.panicked || !good {
 				x.violate("C01", "wots-part-wrong", fmt.Sprintf("%s,idx=%d", x.cfgSig(), idx), fmt.Sprintf("the WOTS part of the signature at index %d does not lead to that index's leaf: Verify would reject it %s", idx, oc.pval))
 			}
 		}
@@ -665,6 +664,10 @@ func (x *xexec) checkSignature(msg, sig []byte, idx uint32) {
 }
 
 func (x *xexec) checkAuth(auth []byte, idx uint32, via string) {
+	if xmss.VerifRootFromAuth == nil {
+		x.res.Probes.Add("auth-path-hook-unavailable", 1)
+		return
+	}
 	var root []byte
 	oc := guard(func() {
 		root = xmss.VerifRootFromAuth(x.hashFn, expectedStubLeaf(idx), idx, auth, x.h, x.pubSeed)
